@@ -835,6 +835,12 @@ fn run_eventually(a: &Args, shared: &SharedReport, checks: Vec<&'static str>, wi
                                     run.case(&m, &orc, &Config { threads: t, block: Some(1), ..Config::plain(st.clone()) }, None);
                                 }
                             }
+                            if !with_limits && idx % (if th { 2 } else { 3 }) == 0 {
+                                // no false alarm under a depth limit either (a state at the limit is not terminal)
+                                for d in [2usize, 3] {
+                                    run.case(&m, &orc, &Config { target_depth: Some(d), ..Config::plain(st.clone()) }, None);
+                                }
+                            }
                             if with_limits && idx % (if th { 2 } else { 4 }) == 0 {
                                 for f in [Finish::Any, Finish::AnyFailures, Finish::AnyOf(vec![1])] {
                                     run.case(&m, &orc, &Config { finish: f, ..Config::plain(st.clone()) }, None);
